@@ -40,7 +40,11 @@ def pools():
     CP3 = [(1 * t + s, 2 * t - s, 3 * t + 2 * s, t) for s, t in TS]             # collinear in space: (1,2,3) + x (1,-1,2)
     CL2 = [(t, s, -(t + 2 * s)) for s, t in TS]                                 # concurrent in (1,2)
     CE3 = [(t, -t, s, -s) for s, t in TS]                                       # coaxial: the planes through (0,0,1) + x (1,1,0)
+    # lines of space in special positions: through the origin, parallel to an axis, in a coordinate plane, at infinity, generic
+    LX = [((0, 0, 0), (1, 2, 3)), ((0, 0, 3), (1, 0, 3)), ((-2, -2, 0), (-1, -2, 0)), ((2, 2, 3), (2, 5, 3)), ((1, 1, 1), (2, 3, 5)), ((0, 0, 0), (0, 0, 1)),
+          ((1, 0, 0), (1, 0, 4)), ((0, 1, 2), (3, 1, 2)), ((1, 2, 0), (3, -1, 0)), ((0, 0, 0), (1, 1, 0)), ((4, -1, 2), (0, 1, 1))]
     return {
+        "line3x": ([g.Line(g.Point(*a), g.Point(*b)) for a, b in LX], lambda xs: g.LineCollection(np.array([x.array for x in xs]))),
         "cpoint2": ([g.Point(np.array(p)) for p in CP2], lambda xs: g.PointCollection(np.array([x.array for x in xs]))),
         "cpoint3": ([g.Point(np.array(p)) for p in CP3], lambda xs: g.PointCollection(np.array([x.array for x in xs]))),
         "cline2": ([g.Line(np.array(l)) for l in CL2], lambda xs: g.LineCollection(np.array([x.array for x in xs]))),
@@ -95,6 +99,10 @@ def optable():
     op("base_point_l2", ("line2",), lambda a: a.base_point)
     op("direction_l2", ("line2",), lambda a: a.direction)
     op("direction_l3", ("line3",), lambda a: a.direction)
+    op("base_point_l3", ("line3x",), lambda a: a.base_point)
+    op("dist_el3", ("plane3", "line3x"), lambda a, b: g.dist(a, b))
+    op("dist_le3", ("line3x", "plane3"), lambda a, b: g.dist(a, b))
+    op("basis_matrix_l3", ("line3x",), lambda a: a.basis_matrix)
     op("isinf_p2", ("point2",), lambda a: a.isinf)
     op("dist_pp2", ("point2", "point2"), lambda a, b: g.dist(a, b))
     op("dist_pp3", ("point3", "point3"), lambda a, b: g.dist(a, b))
@@ -194,7 +202,7 @@ def compare_pos(cres, sres, pos, out_shape, opname=""):
 SCALES = [1, 2000, 0.001, -3, 1500, -0.5]
 QSCALES = [1, 30, 0.05, -3, 20, -0.5]     # matrices of quadrics and transformations: moderate factors (absolute tolerances on
                                           # quadratic / cubic expressions of the entries are by design not scale free)
-SCALABLE = ("point2", "line2", "point3", "plane3", "line3", "quadric2", "trafo2", "cpoint2", "cpoint3", "cline2", "cplane3", "cline3")
+SCALABLE = ("point2", "line2", "point3", "plane3", "line3", "quadric2", "trafo2", "cpoint2", "cpoint3", "cline2", "cplane3", "cline3", "line3x")
 
 
 def _rescaled(x, f):
@@ -299,7 +307,7 @@ def replay_indexing(_):
         if not cond:
             out.append(dict(site=site, stratum="indexing", case={}, expected=exp, observed=obs))
 
-    elem = {"cpoint2": g.Point, "cpoint3": g.Point, "cline2": g.Line, "cplane3": g.Plane, "cline3": g.Line, "point2": g.Point, "line2": g.Line, "point3": g.Point, "plane3": g.Plane, "line3": g.Line, "quadric2": g.Quadric,
+    elem = {"line3x": g.Line, "cpoint2": g.Point, "cpoint3": g.Point, "cline2": g.Line, "cplane3": g.Plane, "cline3": g.Line, "point2": g.Point, "line2": g.Line, "point3": g.Point, "plane3": g.Plane, "line3": g.Line, "quadric2": g.Quadric,
             "trafo2": g.Transformation, "seg2": g.Segment, "poly2": g.Polygon}
     for kind, (pool, mk) in PL.items():
         xs = pool[:6]
